@@ -94,11 +94,13 @@ func TestVerifStateStore(t *testing.T) {
 	for c := first; c < first+n; c++ {
 		r := rand.New(rand.NewSource(int64(seed)*1000003 + int64(c)))
 		g := &gen{r: r, prune: os.Getenv("VERIF_MODE") == "prune"}
+		caseLen := length
 		if g.prune {
 			g.script = g.pruneScript()
+			caseLen = len(g.script) + length/3 // the scripted history and its Prune, then some random ops
 		}
 		runCase(w, c, func(h *harness, i int) (Op, bool) {
-			if i > length {
+			if i > caseLen {
 				return Op{}, false
 			}
 			g.h = h
